@@ -550,6 +550,8 @@ func c04HTTP(c *ctx, corpus []string, n int, next func(int) string) {
 		mk(sutOpts{mode: "standalone", ingresses: []string{"http://app.example.com"}, autoLogin: true}, []string{"http://app.example.com"}, nil),
 		mk(sutOpts{mode: "standalone", ingresses: []string{"http://app.example.com/sub", "http://other.example.com"}, autoLogin: true}, []string{"http://app.example.com/sub", "http://other.example.com"}, nil),
 		mk(sutOpts{mode: "sso-server", ingresses: []string{"http://sso.example.com"}, ssoDomain: "example.com", ssoDefaultURL: "http://default.example.com/start"}, []string{"http://sso.example.com"}, []string{"http://default.example.com/start"}),
+		// operator URLs WITHOUT a path: a look-alike may then extend the host itself (default.example.com -> default.example.com.evil.net)
+		mk(sutOpts{mode: "sso-server", ingresses: []string{"http://login.example.com"}, ssoDomain: ".example.com", ssoDefaultURL: "http://www.example.com"}, []string{"http://login.example.com"}, []string{"http://www.example.com"}),
 		mk(sutOpts{mode: "sso-proxy", ingresses: []string{"http://app.example.com"}, ssoServerURL: "http://sso.example.com", autoLogin: true}, []string{"http://app.example.com"}, []string{"http://sso.example.com"}),
 		mk(sutOpts{mode: "sso-proxy", ingresses: []string{"http://app.example.com/sub"}, ssoServerURL: "http://sso.example.com/base", autoLogin: true}, []string{"http://app.example.com/sub"}, []string{"http://sso.example.com"}),
 	}
